@@ -140,6 +140,8 @@ class Ctx:
         self.fresh_counter = 0
         self._axiom_keys = set()
         self.axioms = []
+        self.__dict__.pop("log_calls", None)
+        self.__dict__.pop("_mono", None)
 
 
 def ctx() -> Ctx:
@@ -573,6 +575,7 @@ def sym_log(x: Any, base: Any = None) -> Any:
     tx = real(term(x))
     if c.decide(tx <= 0):
         raise ValueError("math domain error")
+    c.__dict__.setdefault("log_calls", []).append((tx, None if base is None else real(term(base))))
     num = ln_term(tx)
     if base is None:
         return SReal(num)
@@ -773,7 +776,7 @@ class Shims:
 
 
 class Path:
-    __slots__ = ("pc", "axioms", "result", "exc", "decisions", "stubs")
+    __slots__ = ("pc", "axioms", "result", "exc", "decisions", "stubs", "log_calls")
 
     def __init__(self, pc: List[z3.BoolRef], axioms: List[z3.BoolRef], result: Any,
                  exc: Optional[BaseException], decisions: List[bool]) -> None:
@@ -825,6 +828,7 @@ def explore(fn: Callable[[], Any], *, assumptions: Sequence[z3.BoolRef] = (),
                 exc = e
             out.paths.append(Path(list(c.pc), list(c.axioms), res, exc,
                                   [d for d, _ in c.trail]))
+            out.paths[-1].log_calls = list(c.__dict__.get("log_calls", []))
             if len(out.paths) > max_paths:
                 out.complete = False
                 break
